@@ -37,6 +37,10 @@ fn prf_inputs(rng: &mut impl RngCore) -> AuthenticatorPrfInputs {
     }
 }
 
+pub fn auth_data_pub(rng: &mut impl RngCore, attested: bool) -> AuthenticatorData {
+    auth_data(rng, attested)
+}
+
 fn auth_data(rng: &mut impl RngCore, attested: bool) -> AuthenticatorData {
     let ad = AuthenticatorData::new("example.com", Some(7));
     if attested {
@@ -132,6 +136,10 @@ fn build(msg: &str, present: &[String], rng: &mut impl RngCore) -> Result<Vec<u8
         _ => ciborium::ser::into_writer(&hmac_input(rng, has("pinUvAuthProtocol")), &mut out),
     };
     r.map(|_| out).map_err(|e| e.to_string())
+}
+
+pub fn build_pub(msg: &str, present: &[String], rng: &mut impl RngCore) -> Vec<u8> {
+    build(msg, present, rng).expect("valid encoding")
 }
 
 /// deserialise as the message type and serialise again
